@@ -196,6 +196,16 @@ void vf_distinct(const char *set, uint64_t h) {
     dset_add(&dsets[i], h);
 }
 
+/* ---- named sets ---------------------------------------------------------- */
+static uint64_t *nseen; static size_t nseen_n, nseen_cap;
+void vf_name(const char *set, const char *name) {
+    uint64_t h = vf_hash(name, strlen(name), vf_hash(set, strlen(set), VF_H0));
+    for (size_t i = 0; i < nseen_n; i++) if (nseen[i] == h) return;
+    if (nseen_n == nseen_cap) { nseen_cap = nseen_cap ? nseen_cap * 2 : 256; nseen = (uint64_t *)vf_xrealloc(nseen, nseen_cap * 8); }
+    nseen[nseen_n++] = h;
+    res_printf("N\t%s\t%s\n", set, name);
+}
+
 /* ---- samples ------------------------------------------------------------- */
 static int nsamples;
 void vf_sample(const char *fmt, ...) {
@@ -295,10 +305,20 @@ static void write_replay(const char *prop, const char *key, const char *msg, cha
 }
 bool vf_case_failed(void) { return case_viols > 0; }
 
+static uint64_t vkeys[256]; static int nvkeys;
 static bool viol_v(const char *prop, const char *key, const char *msg) {
     char path[700];
     if (!prop) prop = VF.prop;
     case_viols++;
+    /* one replay per distinct (property, key) and process; repeats are only counted */
+    uint64_t kh = vf_hash(key, strlen(key), vf_hash(prop, strlen(prop), VF_H0));
+    bool seen = false;
+    for (int i = 0; i < nvkeys; i++) if (vkeys[i] == kh) seen = true;
+    if (seen) {
+        res_printf("V\t%s\t%s\t-\tcase=%ld op=%ld (repeat)\n", prop, key, vf_cur_case, vf_cur_op);
+        return true;
+    }
+    if (nvkeys < 256) vkeys[nvkeys++] = kh;
     vf_nviol++;
     write_replay(prop, key, msg, path, sizeof path);
     char m[900]; snprintf(m, sizeof m, "%s", msg);
@@ -378,6 +398,7 @@ static void dump_counters(void) {
         res_printf("%s\t%s\t%ld\n", ctr[i].is_max ? "M" : "C", ctr[i].name, ctr[i].v);
     nctr = 0;
 }
+static int real_viols;
 int vf_finish(void) {
     dump_counters();
     for (int i = 0; i < ndsets; i++) {
